@@ -24,6 +24,25 @@ def check_unsat(it, rep, cond):
     if r == z3.unsat:
         rep.cov['unsat'] += 1
         return None
+    # sat under the uninterpreted multiplication: refine with the real products before believing the model
+    from mirsym import interp as _I
+    if _I._MUL_TERMS:
+        it.solver.push()
+        it.solver.add(cond)
+        for (t_, x, y) in _I._MUL_TERMS:
+            it.solver.add(t_ == x * y)
+        it.solver.set('timeout', 30000)
+        r2 = it.solver.check()
+        it.nq += 1
+        m2 = it.solver.model() if r2 == z3.sat else None
+        it.solver.pop()
+        it.solver.set('timeout', 60000)
+        if r2 == z3.unsat:
+            rep.cov['unsat'] += 1
+            rep.cov['spurious_under_uninterpreted_mul'] = rep.cov.get('spurious_under_uninterpreted_mul', 0) + 1
+            return None
+        if m2 is not None:
+            m = m2
     rep.cov['sat'] += 1
     return m
 
